@@ -454,3 +454,29 @@ func Huge() []Input {
 		{"huge", "many-colons", []byte("did:ion:" + strings.Repeat(":", 1<<16))},
 	}
 }
+
+// Amplify returns small inputs whose handling multiplies the size of a document: n RFC 6902 copies of a member into
+// itself double the document n times. The numbers of copies are chosen so that the create request fits the limits of
+// the shipped long-form configuration (MaxDeltaSize 1700, MaxOperationSize 2500).
+func Amplify() []Input {
+	enc := base64.RawURLEncoding
+	step := `{"op":"copy","from":"/m","path":"/m/-"}` // m' = m with m appended: twice the size
+	list := func(n int) string {
+		return `[{"op":"add","path":"/m","value":[1]}` + strings.Repeat(","+step, n) + `]`
+	}
+	rec, upd := keys.New("P-256", 520), keys.New("P-256", 521)
+	var create ops.M
+	n := 60
+	for ; n > 0; n-- {
+		create = ops.ValidCreate(rec, upd, []any{ops.ParseJSON(`{"action":"ietf-json-patch","patches":` + list(n) + `}`)}, 18, nil)
+		if len(ops.Bytes(create["delta"])) <= 1700 && len(ops.Bytes(create)) <= 2500 {
+			break
+		}
+	}
+	long := M{"delta": create["delta"], "suffixData": create["suffixData"]}
+	return []Input{
+		{"jsonpatch", fmt.Sprintf("amplify/json-patch-%d-copies-into-itself", n), []byte(list(n))},
+		{"op", fmt.Sprintf("amplify/create-request-%d-copies-into-itself", n), ops.Bytes(create)},
+		{"did", fmt.Sprintf("amplify/long-form-did-%d-copies-into-itself", n), []byte("did:ion:" + ops.Suffix(create, 18) + ":" + enc.EncodeToString(ops.Bytes(long)))},
+	}
+}
